@@ -32,7 +32,7 @@ func (Prop) Model() string  { return "meta" }
 func (Prop) Parallel() int  { return 1 } // the step hook is process-global
 func (Prop) Stateful() bool { return true }
 func (Prop) Describe(cfg *fw.Config) {
-	cfg.Rule = "histories of user/grant/password/admin-flag/database changes in the real meta FSM, `poll` delivering them to a data node's meta.Client, authorisation of every representative statement kind (54 statements, alone and in multi-statement requests, explicit and default database, nil user, unknown user, before any user exists) and of writes, and authentications with current/old/wrong passwords, atomically and split in two steps around metadata updates; non-trivial = at least one deny and one allow, or a split authentication; distinct = distinct op list"
+	cfg.Rule = "(plus the same decisions through the HTTP front: a real httpd.Handler with authentication enabled over the node's meta client, query and write requests with every credential carrier — none, basic, u/p parameters, bearer token — current, wrong and absent passwords, unknown users, before any user or administrator exists; status and whether the executor / points writer was reached) histories of user/grant/password/admin-flag/database changes in the real meta FSM, `poll` delivering them to a data node's meta.Client, authorisation of every representative statement kind (54 statements, alone and in multi-statement requests, explicit and default database, nil user, unknown user, before any user exists) and of writes, and authentications with current/old/wrong passwords, atomically and split in two steps around metadata updates; non-trivial = at least one deny and one allow, or a split authentication; distinct = distinct op list"
 }
 
 func (Prop) KeepOp(i int, op string) bool { return i == 0 }
@@ -132,6 +132,23 @@ func genCase(r *fw.Rand) fw.Case {
 				ops = append(ops, fmt.Sprintf("updateuser %s h%d", u, r.Intn(4)), "poll")
 			}
 			ops = append(ops, "authf", fmt.Sprintf("authn %s p%d", u, r.Intn(3)), fmt.Sprintf("authn %s p%d", u, r.Intn(3)))
+		}
+	}
+	// a writer and an administrator with known passwords, so that requests do get through
+	if r.Chance(0.5) {
+		ops = append(ops, "createdb db0", "createuser u1 h1 0", "setpriv u1 db0 "+fmt.Sprint(1+r.Intn(3)), "createuser u2 h2 1", "poll")
+		for k := 0; k < 4; k++ {
+			car := r.Pick([]string{"basic", "params", "bearer", "none"})
+			u := r.Pick([]string{"u1", "u2"})
+			pw := "p" + u[1:]
+			if r.Chance(0.25) {
+				pw = "p0" // wrong
+			}
+			if r.Bool() {
+				ops = append(ops, fmt.Sprintf("hw %s %s %s %s", car, u, pw, r.Pick([]string{"db0", "db1"})))
+			} else {
+				ops = append(ops, fmt.Sprintf("hq %s %s %s db0 %s", car, u, pw, stmts()))
+			}
 		}
 	}
 	// drain pending stores
